@@ -48,6 +48,12 @@ class Engine:
     def canon(self, out_line):
         return out_line
 
+    def model_input(self, line, impl_out):
+        """the line fed to the model driver for this case.  Default: the case itself (the model
+        predicts the output).  Relational engines (model with an abstract oracle component) append
+        the implementation's output so that the driver can replay its choices as the oracle."""
+        return line
+
 
 def ddmin(ops, test):
     """delta debugging: smallest sublist of ops for which test(ops) is still True"""
@@ -124,17 +130,19 @@ class Run:
                     self.violations.append((path, "no-failing-input-found"))
                     return None
                 impl_exes[eng.exe] = exe
-                models[eng.exe] = C.build_model(eng.exe)
+                if not getattr(eng, "model_free", False):
+                    models[eng.exe] = C.build_model(eng.exe)
         for eng in engines:
-            corpus = eng.corpus()
+            corpus = list(eng.corpus()) + list(getattr(eng, "_extra_corpus", []))
             n = eng.n_cases(self.tier)
             cases = list(corpus)
             for i in range(n):
                 cases.append(eng.gen(C.Rng(self.seed, eng.name, i), self.tier))
             t1 = time.time()
-            impl = C.run_lines(impl_exes[eng.exe], cases, shards=16)
+            impl = C.run_lines(impl_exes[eng.exe], cases, shards=16, per_shard=getattr(eng, 'per_shard', 50))
             t2 = time.time()
-            mod = C.run_lines(models[eng.exe], cases, shards=16)
+            mod = impl if getattr(eng, "model_free", False) else \
+                C.run_lines(models[eng.exe], [eng.model_input(c, a) for c, a in zip(cases, impl)], shards=16)
             t3 = time.time()
             shapes = set()
             hist = {}
@@ -168,7 +176,9 @@ class Run:
 
     def run_one(self, eng, line):
         a = C.run_lines(self._impl_exes[eng.exe], [line], shards=1)[0]
-        b = C.run_lines(self._models[eng.exe], [line], shards=1)[0]
+        if getattr(eng, "model_free", False):
+            return eng.canon(a), eng.canon(a)
+        b = C.run_lines(self._models[eng.exe], [eng.model_input(line, a)], shards=1)[0]
         return eng.canon(a), eng.canon(b)
 
     def shrink_mismatch(self, rec):
@@ -233,10 +243,27 @@ def standard(prop, tier, seed, engines, assumptions, known_witnesses=None, extra
     r.assumptions = assumptions
     r.static_gate()
     proof_ok = r.proof_gate()
+    # witnesses of findings that are no longer listed as known (i.e. fixed) stay in the corpus as
+    # regression cases: a fixed entry suppresses nothing
+    known_ids = {k["id"] for k in r.known}
+    for fid, w in (known_witnesses or {}).items():
+        if fid not in known_ids:
+            w[0]._extra_corpus = getattr(w[0], "_extra_corpus", [])
+            if w[1] not in w[0]._extra_corpus:
+                w[0]._extra_corpus.append(w[1])
     mism = r.d1(engines)
     if mism is None:
         return r.finish()
-    hits = getattr(r, "_monitor_hits", [])
+    # monitor clause ids may be prefixed "Cxx:" when one engine serves several properties;
+    # a hit belongs to this check iff it has no prefix or this property's prefix
+    def mine(clause):
+        return ":" not in clause or clause.split(":", 1)[0] == prop
+    for e in engines:
+        if not getattr(e, "_filtered", False):
+            orig = e.monitor
+            e.monitor = (lambda orig: lambda line, out: [(c, d) for c, d in orig(line, out) if mine(c)])(orig)
+            e._filtered = True
+    hits = [h for h in getattr(r, "_monitor_hits", []) if mine(h["clause"])]
 
     # 1. property monitors on the implementation: concrete failing inputs
     new_hits = {}
@@ -275,6 +302,34 @@ def standard(prop, tier, seed, engines, assumptions, known_witnesses=None, extra
             else:
                 r.violations.append((C.write_replay(prop, payload), "no-failing-input-found"))
             break
+    # 2b. D3: the synchronisation skeleton of the anchored source files vs the committed baseline
+    from . import skeleton
+    nfiles, sk = skeleton.compare(prop)
+    r.cov["skeleton_files_compared"] = nfiles
+    r.cov["skeleton_mismatches"] = len(sk)
+    if sk and not r.violations:
+        # search the implementation for a failing schedule/input before reporting
+        searchers = [e for e in engines if getattr(e, "model_free", False)]
+        found = False
+        if searchers:
+            old_tier = r.tier
+            r.tier = "thorough"
+            r._monitor_hits = []
+            r.d1(searchers[:8])
+            r.tier = old_tier
+            for h in [h for h in r._monitor_hits if mine(h["clause"])]:
+                if not r.is_known(h["engine"], h["clause"]):
+                    path = C.write_replay(prop, {"kind": "property-monitor", "engine": h["engine"].name, "case": h["case"],
+                                                 "impl_output": h["impl"], "clause": h["clause"], "detail": h["detail"],
+                                                 "skeleton_diff": sk[0][1]})
+                    r.violations.append((path, ""))
+                    found = True
+                    break
+        if not found:
+            path = C.write_replay(prop, {"kind": "correspondence", "broken": "D3 synchronisation skeleton of %s differs from the baseline the models were written against (skeleton/*.skel)" % sk[0][0],
+                                         "diff": sk[0][1], "files": [f for f, _ in sk]})
+            r.violations.append((path, "no-failing-input-found"))
+
     # 3. proof failure
     if not proof_ok and not r.violations:
         pf = r.proof_failure
@@ -296,3 +351,39 @@ def standard(prop, tier, seed, engines, assumptions, known_witnesses=None, extra
     if extra:
         extra(r)
     return r.finish()
+
+
+def generic_replay(prop, engines, path):
+    """./check Cxx --replay <file>: re-run the recorded case on the current tree (and on the model)
+    and print both outcomes plus the monitor's verdict."""
+    import json as _json
+    rec = _json.load(open(path))
+    print("replay file:", path)
+    print("kind:", rec.get("kind"))
+    name = rec.get("engine")
+    case = rec.get("case")
+    if not name or case is None:
+        print(_json.dumps(rec, indent=1)[:4000])
+        print("(nothing executable recorded: this replay names the proof obligation / correspondence item that no longer checks)")
+        return 0
+    eng = next((e for e in engines if e.name == name), None)
+    if eng is None:
+        print("engine %s is not wired for %s" % (name, prop))
+        return 2
+    exe, err = C.build_harness(eng.crate, eng.exe)
+    if exe is None:
+        print(err[-3000:])
+        return 2
+    a = eng.canon(C.run_lines(exe, [case], shards=1)[0])
+    print("case:           ", case)
+    print("implementation: ", a)
+    if not getattr(eng, "model_free", False):
+        m = C.build_model(eng.exe)
+        b = eng.canon(C.run_lines(m, [eng.model_input(case, a)], shards=1)[0])
+        print("model:          ", b)
+        print("agree:          ", a == b)
+    hits = eng.monitor(case, a)
+    print("monitor:        ", hits if hits else "no clause violated")
+    if "recorded impl_output" not in rec and rec.get("impl_output"):
+        print("recorded impl:  ", rec.get("impl_output"))
+    return 0
